@@ -44,6 +44,9 @@ class C14(Prop):
                 evs = [[None, T0 + rng.randrange(0, 50) * 1_000_000, rng.choice([0, 0, 1, 1500, 2_000_000, 86_400_000_000]),
                         rng.choice(storegen.LABELS)] for _ in range(n)]
                 buckets.append({"id": bid, "meta": m, "events": evs})
+            if len(buckets) >= 2 and rng.random() < 0.25:
+                # two buckets whose ids differ only in letter case (a host name that changed its capitalisation)
+                buckets[1]["id"] = buckets[0]["id"].swapcase() if buckets[0]["id"].swapcase() != buckets[0]["id"] else buckets[0]["id"] + "X"
             mode = rng.choice(["same", "same", "same", "other-profile", "custom-path"])
             case = {"testing": rng.random() < 0.5, "mode": mode, "buckets": buckets,
                     "other_first": mode == "same" and rng.random() < 0.3}
